@@ -176,7 +176,8 @@ class CoapAccessory:
         self.key_c2a, self.key_a2c = key_c2a, key_a2c
         self.rctr = self.sctr = 0
         self.requests = []          # parsed request batches: list of [(ctl, opcode, tid, iid, data)]
-        self.script = None          # list of (oc, status, body bytes)
+        self.script = None          # list of (oc, status, body bytes), answered by position ...
+        self.by_iid = None          # ... or {iid: [(oc, status, body), ...]}: the k-th request item for an iid gets its k-th outcome
         self.bad_ctl = 0x00
 
     def request(self, msg):
@@ -194,8 +195,17 @@ class CoapAccessory:
             items.append((ctl, op, tid, iid, bytes(plain[p + 7:p + 7 + n])))
             p += 7 + n
         self.requests.append(items)
+        if self.by_iid is not None:                 # a conformant accessory answers every item it RECEIVED
+            seen = {}
+            script = []
+            for it in items:
+                outs = self.by_iid.get(it[3]) or [("err", 4, b"")]          # unknown instance id
+                script.append(outs[min(seen.get(it[3], 0), len(outs) - 1)])
+                seen[it[3]] = seen.get(it[3], 0) + 1
+        else:
+            script = self.script
         out = bytearray()
-        for k, (oc, status, body) in enumerate(self.script):
+        for k, (oc, status, body) in enumerate(script):
             tid = items[k][2] if k < len(items) else k
             if oc == "tid":
                 tid = (tid + 1) % 256
